@@ -90,6 +90,29 @@ from updup.a import Shared as SharedA
 class Shared(SharedA):
     def execute(self, **kw): return "updup.c.Shared"
 ''',
+    "upkg/_legacy.py": '''
+from mpilot import params
+from mpilot.commands import Command
+class Legacy(Command):
+    """A command in a module of the package whose name starts with an underscore."""
+    output = params.StringParameter()
+    def execute(self, **kw): return "upkg._legacy.Legacy"
+''',
+    "umeta.py": '''
+from abc import ABCMeta
+from mpilot import params
+from mpilot.commands import Command
+class PluginMeta(type(Command), ABCMeta):
+    """Commands combined with abstract base classes need a metaclass derived from the command metaclass."""
+class Meta1(Command, metaclass=PluginMeta):
+    output = params.StringParameter()
+    def execute(self, **kw): return "umeta.Meta1"
+class Plain1(Command):
+    output = params.StringParameter()
+    def execute(self, **kw): return "umeta.Plain1"
+class Meta2(Meta1):
+    def execute(self, **kw): return "umeta.Meta2"
+''',
     "upkg/one.py": '''
 from mpilot import params
 from mpilot.commands import Command
@@ -183,7 +206,7 @@ def describe(libs):
     lib = {}
     for name, cls in sorted(p.command_library.items()):
         entry = {"module": cls.__module__}
-        if cls.__module__.split(".")[0] in ("ulib", "ulib_extra", "ulibx", "other", "upkg", "upkg_more", "upkg_one", "upkgzone", "updup", "__main__", "usub"):
+        if cls.__module__.split(".")[0] in ("ulib", "ulib_extra", "ulibx", "other", "upkg", "upkg_more", "upkg_one", "upkgzone", "updup", "__main__", "usub", "umeta"):
             try:
                 p.add_command(cls, "probe_" + name, {})
                 entry["behaviour"] = p.commands["probe_" + name].result
